@@ -11,13 +11,14 @@ fn multiset(v: &[String]) -> Vec<String> {
     v
 }
 
-pub fn eval(p: &Prog) -> (String, Option<String>, bool) {
+pub fn eval(p: &Prog) -> (String, Option<String>, bool, u64) {
     let out = run_prog(p);
+    let fuel = model_fuel(&out);
     let line = show_run(&out, false);
     let (answers, finished) = match &out {
         RunOut::Answers(a, more) => (a, !*more),
         RunOut::Budget(a) => (a, false),
-        RunOut::Panic(s) => return (line, Some(format!("panic at {}", s)), true),
+        RunOut::Panic(s) => return (line, Some(format!("panic at {}", s)), true, fuel),
     };
     let got: Vec<String> = answers.iter().map(|a| a.show("")).collect();
     let mut fail = None;
@@ -38,13 +39,17 @@ pub fn eval(p: &Prog) -> (String, Option<String>, bool) {
     } else {
         // infinite (or truncated) stream: every answer produced is an answer of the program
         for a in answers {
-            if !ref_member(p, a, 10) {
-                fail = Some(format!("answer {} is not an answer of the program (reference interpreter, unfolding depth 10)", a.show("")));
+            // unfolding depth: an answer needs at most one unfolding per constructor it contains
+            // (plus the relations' own base cases), so its size bounds the depth needed
+            let size: usize = a.terms.iter().map(|t| t.text().split_whitespace().count()).sum();
+            let depth = 10 + size;
+            if !ref_member(p, a, depth) {
+                fail = Some(format!("answer {} is not an answer of the program (reference interpreter, unfolding depth {})", a.show(""), depth));
                 break;
             }
         }
     }
-    (line, fail, got.len() > 1)
+    (line, fail, got.len() > 1, fuel)
 }
 
 fn corpus() -> Vec<&'static str> {
@@ -59,11 +64,11 @@ fn corpus() -> Vec<&'static str> {
 }
 
 fn record(p: &Prog, out: &mut Out) {
-    let (line, fail, nt) = eval(p);
+    let (line, fail, nt, fuel) = eval(p);
     if line.contains("BUDGET") {
         out.stat("budget_exhausted");
     }
-    out.push(p.line(), line, fail, nt);
+    out.push(p.line_f(fuel), line, fail, nt);
 }
 
 pub fn replay(line: &str, out: &mut Out) {
